@@ -642,7 +642,9 @@ pub fn lexeme_corpus(thorough: bool) -> Vec<String> {
         }
     }
     let mut any: Vec<char> = (0u32..0x80).filter_map(char::from_u32).collect();
-    any.extend(['\u{80}', '\u{e9}', '\u{2028}', '\u{1F600}', '\u{663}', '\u{ff11}']);
+    // code points at every encoding-length and range boundary (the last one is the largest scalar value)
+    any.extend(['\u{80}', '\u{e9}', '\u{2028}', '\u{1F600}', '\u{663}', '\u{ff11}', '\u{7ff}', '\u{800}', '\u{d7ff}', '\u{e000}',
+        '\u{fffd}', '\u{ffff}', '\u{10000}', '\u{10fffe}', '\u{10ffff}']);
     for c in &any {
         t.push(format!("\"\\{c}\""));
         t.push(format!("[\"a\\{c}b\",1]"));
